@@ -136,6 +136,16 @@ def parallel_map(fn, jobs: List[Any], workers: Optional[int] = None) -> List[Any
     """Run picklable jobs on a process pool (falls back to sequential for small inputs)."""
     workers = workers or min(16, os.cpu_count() or 1)
     if len(jobs) <= 1 or workers <= 1 or os.environ.get("OSV_SEQUENTIAL"):
-        return [fn(j) for j in jobs]
-    with ProcessPoolExecutor(max_workers=min(workers, len(jobs))) as ex:
-        return list(ex.map(fn, jobs))
+        results = [fn(j) for j in jobs]
+    else:
+        with ProcessPoolExecutor(max_workers=min(workers, len(jobs))) as ex:
+            results = list(ex.map(fn, jobs))
+    # instances are per model: tag them with the model index of their job so that code shared between models (helpers,
+    # mixins, base classes) does not collapse five obligations into one
+    for job, lst in zip(jobs, results):
+        idx = job if isinstance(job, int) else (job[0] if isinstance(job, (tuple, list)) and job and isinstance(job[0], int) else None)
+        if isinstance(lst, list):
+            for d in lst:
+                if isinstance(d, dict):
+                    d.setdefault("model", idx)
+    return results
